@@ -19,6 +19,10 @@
                   `arrive r o …`     — `[await make_toggle(name=key)]` done, worker spawned
                   `listed r`         — `Bookmark.LISTED`: `[await drop_toggle(resource_indexed)]`
   * worker (r,o)  `index`            — `await indexing.index_resource(...)` returned
+                  `indexFail`        — the cycle ended WITHOUT reaching `drop_toggle`: `index_resource`
+                                       (or anything before it) raised and the throttler swallowed it,
+                                       or the cycle was skipped by the throttler; the worker goes on
+                                       waiting for the next event and still holds its toggle
                   `drop`             — `[await drop_toggle(resource_indexed)]`, enters `wait_for(True)`
                   `pass`             — `await operator_indexed.wait_for(True)` returned
                   `skip`             — the worker was started with `operator_indexed=None`: no wait
@@ -74,12 +78,14 @@ structure GState (R O : Type) where
   first : List R                  -- indexed kinds spawned by the first batch (the start-up)
   firstDone : Bool                -- the first batch has dropped its blocker
   wlist : List (R × O)            -- every object that ever got a worker (to enumerate `workers`)
+  leaked : List (R × O)           -- per-object toggles still in the set whose worker has exited: nobody can drop them
+  failed : Bool                   -- (history) some indexing cycle has ended without reaching `drop_toggle`
 
 def GState.init {R O : Type} : GState R O :=
   { started := false, spawning := false, blocker := false, pending := [], spawned := [],
     resTog := [], objTog := [], listed := [], detached := [], checked := [], workers := fun _ => none,
     listing := [], indexedOnce := [], everOn := false, handled := false,
-    first := [], firstDone := false, wlist := [] }
+    first := [], firstDone := false, wlist := [], leaked := [], failed := false }
 
 inductive Label (R O : Type) where
   | spawnBegin (kinds : List (R × Bool))
@@ -89,6 +95,7 @@ inductive Label (R O : Type) where
   | arrive (r : R) (o : O) (gated hasToggle : Bool)   -- flags as observed on the started worker
   | listed (r : R)
   | index (r : R) (o : O)
+  | indexFail (r : R) (o : O)
   | drop (r : R) (o : O)
   | pass (r : R) (o : O)
   | skip (r : R) (o : O)
@@ -102,7 +109,8 @@ section
 variable {R O : Type} [DecidableEq R] [DecidableEq O]
 
 /-- `ToggleSet(all).is_on()` -/
-def GState.isOn (s : GState R O) : Bool := !s.blocker && s.resTog.isEmpty && s.objTog.isEmpty
+def GState.isOn (s : GState R O) : Bool :=
+  !s.blocker && s.resTog.isEmpty && s.objTog.isEmpty && s.leaked.isEmpty
 
 def setPc (s : GState R O) (ro : R × O) (w : Worker) (pc : Pc) : GState R O :=
   { s with workers := upd s.workers ro (some { w with pc := pc }) }
@@ -112,6 +120,12 @@ def free (s : GState R O) (ro : R × O) : Bool :=
   match s.workers ro with
   | none => true
   | some w => decide (w.pc = .idle)
+
+/-- the (exited or exiting) worker of `ro` still has its per-object toggle in the set -/
+def holds (s : GState R O) (ro : R × O) : Bool :=
+  match s.workers ro with
+  | some w => w.hasToggle && decide (ro ∈ s.objTog)
+  | none => false
 
 def step (bug : Bug) (s : GState R O) : Label R O → Option (GState R O)
   | .spawnBegin kinds =>
@@ -149,8 +163,11 @@ def step (bug : Bug) (s : GState R O) : Label R O → Option (GState R O)
         let det := decide (r ∈ s.detached)
         let t := !det && ind
         if gated = (!det) ∧ hasToggle = t ∧ (det = true ∨ (r, o) ∈ s.checked) then
+          -- a previous worker of this object has exited (unobserved); a toggle it still held is lost
+          let base := if holds s (r, o) then sdel (r, o) s.objTog else s.objTog
           some { s with checked := sdel (r, o) s.checked,
-                        objTog := if t then sadd (r, o) s.objTog else s.objTog,
+                        leaked := if holds s (r, o) then (r, o) :: s.leaked else s.leaked,
+                        objTog := if t then sadd (r, o) base else base,
                         workers := upd s.workers (r, o) (some ⟨.queued, !det, t⟩),
                         wlist := sadd (r, o) s.wlist,
                         listing := if ind && !decide (r ∈ s.listed) then sadd (r, o) s.listing else s.listing }
@@ -172,6 +189,11 @@ def step (bug : Bug) (s : GState R O) : Label R O → Option (GState R O)
       if w.pc = .queued then
         some { setPc s (r, o) w .indexed with indexedOnce := sadd (r, o) s.indexedOnce }
       else none
+    | none => none
+  | .indexFail r o =>
+    match s.workers (r, o) with
+    | some w =>
+      if w.pc = .queued then some { setPc s (r, o) w .idle with failed := true } else none
     | none => none
   | .drop r o =>
     match s.workers (r, o) with
@@ -207,7 +229,12 @@ def step (bug : Bug) (s : GState R O) : Label R O → Option (GState R O)
     | none => none
   | .exit r o =>
     match s.workers (r, o) with
-    | some w => if w.pc = .idle then some { s with workers := upd s.workers (r, o) none } else none
+    | some w =>
+      if w.pc = .idle then
+        some { s with workers := upd s.workers (r, o) none,
+                      objTog := if holds s (r, o) then sdel (r, o) s.objTog else s.objTog,
+                      leaked := if holds s (r, o) then (r, o) :: s.leaked else s.leaked }
+      else none
     | none => none
 
 def run (bug : Bug) : GState R O → List (Label R O) → Option (GState R O)
